@@ -28,8 +28,8 @@ PID = "C48"
 LEVEL = "proof"
 LEAN = ["SaVerif.Props.C48"]
 META = {
-    "text": "Lean theorems for ALL histories (simulation proved by induction over the operation list): the session with garbage collection after every step and the session in which nothing is ever collected produce the same outputs (values read, flush results) and the same database (gc_unobservable, gc_same_db); collection never removes an object with pending work (collect_keeps_strong) and flush after collection writes what flush without it writes (collect_flush_db); an unmodified persistent object without application reference is released (collect_releases). Tied to orm/state.py (_strong_obj), identity.py (WeakInstanceDict), session.py by a differential run on a real Session with real reference drops and gc.collect(); the property is re-checked verbatim by a twin run in which nothing can be collected and by a dict reference.",
-    "note": "Trusted: Lean kernel; correspondence (sampling + exhaustive short sequences); CPython reference counting + gc.collect() as the garbage collector; SQLite. Objects are flat (no relationship reachability between mapped objects), mutable-extension and pending-mutation references are not modelled. len(identity_map) is compared with the model only (release is a 'may' in the property, not checked by the oracle).",
+    "text": "Lean theorems for ALL histories without a rollback (simulation proved by induction over the operation list): the session with garbage collection after every step and the session in which nothing is ever collected produce the same outputs (values read, flush results) and the same database (gc_unobservable_partial, gc_same_db_partial); the full statement is false - SessionTransaction._new is weak, so an instance re-loaded after the inserted one was collected survives a rollback as a phantom (gc_unobservable_counterexample, replayed on the real code as a known finding); collection never removes an object with pending work (collect_keeps_strong) and flush after collection writes what flush without it writes (collect_flush_db); an unmodified persistent object without application reference is released (collect_releases). Tied to orm/state.py (_strong_obj), identity.py (WeakInstanceDict), session.py by a differential run on a real Session with real reference drops and gc.collect(); the property is re-checked verbatim by a twin run in which nothing can be collected and by a dict reference.",
+    "note": "Trusted: Lean kernel; correspondence (sampling + exhaustive short sequences); CPython reference counting + gc.collect() as the garbage collector; SQLite. Objects are flat (no relationship reachability between mapped objects), mutable-extension and pending-mutation references are not modelled. len(identity_map) is compared with the model only (release is a 'may' in the property, not checked by the oracle). gc_unobservable is a _partial theorem (hypothesis: no rollback() and no failing flush in the history) with a proved counterexample.",
     "technique": "Lean 4 simulation proof (GC vs no-GC semantics) + differential correspondence with real reference drops + metamorphic twin run",
     "design_ref": "DESIGN.md §3 C30–C48 (C48)",
 }
@@ -85,6 +85,9 @@ def world():
     return _W
 
 
+KEY_PHANTOM = "instance-reloaded-after-gc-of-inserted-one-survives-rollback-as-phantom"
+
+
 def run_history(case, keepalive=False):
     import traceback
 
@@ -101,6 +104,7 @@ def _run_history(case, keepalive):
     from sqlalchemy import inspect
     from sqlalchemy.exc import IntegrityError
     from sqlalchemy.orm import Session
+    from sqlalchemy.orm.exc import ObjectDeletedError, StaleDataError
 
     w = world()
     w.reset()
@@ -245,16 +249,25 @@ def _run_history(case, keepalive):
                         outs.append("#%d" % len(sess.identity_map))
                     else:
                         raise ValueError(op)
-                except IntegrityError:
+                except (IntegrityError, StaleDataError, ObjectDeletedError) as e:
                     sess.rollback()
                     if "dup" not in expect:
-                        problems.append(("unjustified-integrity-error", "op %s" % (op,)))
+                        problems.append(("unjustified-flush-error", "op %s raised %s" % (op, type(e).__name__)))
                     after_rollback()
                     outs.append("integrity" + showdb(table()))
                 o = None
                 cur = None
+                e = None
                 if not keepalive:
                     gc.collect()
+                if kind == "rollback" or outs[-1].startswith("integrity"):
+                    # known defect: an instance re-loaded after the one the transaction inserted was
+                    # garbage collected is unknown to the transaction and survives its rollback
+                    rows_now = table()
+                    ph = sorted(key[1][0] for key in sess.identity_map.keys() if key[1][0] not in rows_now)
+                    if ph:
+                        problems.append((KEY_PHANTOM, "after %s the identity map still holds instances %s whose rows were rolled back" % (kind, ph)))
+                        break  # the rest of the history runs on a session the reference semantics cannot have
     finally:
         try:
             sess.close()
@@ -317,9 +330,14 @@ def small_scope(length):
         yield prefix + list(seq) + [("len",), ("commit",)]
 
 
+PHANTOM_OPS = [("add", 0, 1), ("flush",), ("drop", 0), ("get", 0), ("rollback",), ("len",), ("set", 0, 5), ("flush",)]
+
+
 def gen_cases(ctx, deep=False):
     thorough = ctx.tier == "thorough" or deep
-    for _ in range(6000 if thorough else 450):
+    # witness of Props/C48.gc_unobservable_counterexample: replayed every run (known finding)
+    yield {"n": 1, "eoc": 0, "ops": PHANTOM_OPS, "src": "phantom"}
+    for _ in range(3500 if thorough else 450):
         n, ops = gen_random(ctx.rng, ctx.tier)
         yield {"n": n, "eoc": ctx.rng.choice([0, 1]), "ops": ops, "src": "random"}
     for seq in small_scope(2):
@@ -342,10 +360,16 @@ def unjson(c):
 
 
 def check_case(case):
+    """returns (impl line, problems, number of operations executed)"""
     outs, problems = run_history(case, keepalive=False)
-    if not problems:
+    nexec = len(outs)
+    if any(k == KEY_PHANTOM for k, _ in problems):
+        # the history stopped where the phantom appeared; compare that prefix only
+        case = dict(case, ops=case["ops"][:nexec])
+    others = [p for p in problems if p[0] != KEY_PHANTOM]
+    if not others and nexec == len(case["ops"]):
         touts, tprobs = run_history(case, keepalive=True)
-        problems += [("twin-" + k, d) for k, d in tprobs]
+        problems += [("twin-" + k, d) for k, d in tprobs if k != KEY_PHANTOM]
         if len(outs) != len(touts):
             if not tprobs:
                 problems.append(("collection-observable", "histories diverge: %s vs %s" % (outs, touts)))
@@ -355,7 +379,19 @@ def check_case(case):
                     problems.append(("collection-observable",
                                      "op #%d %s: with reference drops + gc -> %s, with every object kept alive -> %s" % (j, op, a, b)))
                     break
-    return ";".join(outs), problems
+    return ";".join(outs), problems, nexec
+
+
+def _budget_exhausted(ctx, t0, n):
+    """a broken tree can make every history slow (leaks, lock waits): stop generating in time
+    and judge what was run"""
+    import time
+
+    limit = 70 if ctx.tier == "quick" else 650
+    if time.time() - t0 > limit:
+        ctx.assumptions.append("time budget reached after %d cases; remaining generated cases not run" % n)
+        return True
+    return False
 
 
 def run(ctx, deep=False):
@@ -366,9 +402,16 @@ def run(ctx, deep=False):
         "non-trivial = a flush happened after a reference drop"
     )
     ctx.trusted.append("CPython reference counting and gc.collect() as the garbage collector")
+    import time
+
+    t0 = time.time()
     cases, impl_out, reqs = [], [], []
     for case in gen_cases(ctx, deep):
-        line, problems = check_case(case)
+        if _budget_exhausted(ctx, t0, len(cases)):
+            break
+        line, problems, nexec = check_case(case)
+        if nexec < len(case["ops"]):
+            case = dict(case, ops=case["ops"][:nexec])
         jc = jsonable(case)
         kinds = [o[0] for o in case["ops"]]
         nontriv = "drop" in kinds and any(k in ("flush", "commit") for k in kinds[kinds.index("drop"):])
@@ -397,7 +440,7 @@ def search(ctx, broken):
     for d in ctx.disagreements:
         c = d.get("case")
         if isinstance(c, dict) and "ops" in c:
-            _, problems = check_case(unjson(c))
+            _, problems, _ = check_case(unjson(c))
             for key, detail in problems:
                 ctx.violation(key, c, detail)
     if ctx.violations:
@@ -409,6 +452,6 @@ def search(ctx, broken):
 
 def replay(ctx, obj):
     case = unjson(obj["case"])
-    line, problems = check_case(case)
+    line, problems, _ = check_case(case)
     print("replay C48 %s\n  impl: %s\n  oracle: %s" % (request(case), line, problems))
     return bool(problems)
